@@ -37,3 +37,39 @@ proof fn lemma_window_index(i0: int, p: int, n: int)
         assert((i0 + n) % n == i0) by { lemma_mod_add_multiples_vanish(i0, n); }
     }
 }
+
+// a full byte read at window position pos + t belongs to bucket (pos + t) % nb  (also for tables
+// smaller than a group: positions in the padding are EMPTY, positions >= WIDTH mirror buckets)
+proof fn lemma_small_window_read(t: &RawTableInner, pos: int, b: int)
+    requires t.shape(), t.mirrored(), 0 <= pos < t.nb(), 0 <= b < Group::WIDTH, t.ctrl@[pos + b] < 0x80u8,
+    ensures t.ctrl@[(pos + b) % t.nb()] == t.ctrl@[pos + b],
+{
+    let n = t.nb();
+    if n >= Group::WIDTH {
+        lemma_mirror_read(t, pos + b);
+    } else {
+        let p = pos + b;
+        if p < n {
+            lemma_small_mod(p as nat, n as nat);
+        } else {
+            // p >= WIDTH (padding bytes are EMPTY, not full): mirror of bucket p - WIDTH, and WIDTH % n == 0
+            assert(p >= Group::WIDTH);
+            let j = p - Group::WIDTH;
+            assert(t.ctrl@[Group::WIDTH + j] == t.ctrl@[j]);
+            lemma_width_multiple(t);
+            lemma_mod_multiples_vanish((Group::WIDTH as int) / n, j, n);
+            lemma_small_mod(j as nat, n as nat);
+        }
+    }
+}
+// for a table smaller than a group, WIDTH is a multiple of the bucket count
+proof fn lemma_width_multiple(t: &RawTableInner)
+    requires t.shape(), t.nb() < Group::WIDTH,
+    ensures (Group::WIDTH as int) % t.nb() == 0, (Group::WIDTH as int) == ((Group::WIDTH as int) / t.nb()) * t.nb(),
+{
+    let m = t.bucket_mask;
+    let m1: usize = (m + 1) as usize;
+    assert(sub(m1, 1) == m);
+    assert(m1 >= 4 && m1 < 16 && (m1 & sub(m1, 1)) == 0 ==> m1 == 4 || m1 == 8) by(bit_vector);
+    assert(t.nb() == 4 || t.nb() == 8);
+}
